@@ -854,7 +854,21 @@ fn parent_start_bound(ix: &Index, s: u32) -> Option<u64> {
 
 /// C11 — unsubscribe() boolean where the handle count is unambiguous
 pub fn check_c11_bool(c: &CheckCtx, _ix: &Index) {
-    // handle life-cycle events per stream
+    // handle life-cycle events per stream (only these can change the handle count)
+    let mut life: HashMap<u32, Vec<&Event>> = HashMap::new();
+    for e in c.h.iter() {
+        match e.op {
+            Op::CloneRx | Op::DropRx | Op::Unsub | Op::IntoSingle | Op::IntoMulti | Op::Transform => {
+                life.entry(e.stream).or_default().push(e);
+            }
+            Op::AddStream => {
+                if let Res::New { stream, .. } = e.res {
+                    life.entry(stream).or_default().push(e);
+                }
+            }
+            _ => {}
+        }
+    }
     for u in c.h.iter().filter(|e| e.op == Op::Unsub) {
         let b = match u.res {
             Res::Bool(b) => b,
@@ -864,29 +878,22 @@ pub fn check_c11_bool(c: &CheckCtx, _ix: &Index) {
         // any other clone/drop/unsub/add_stream-creating on this stream overlapping U makes it ambiguous
         let mut ambiguous = false;
         let mut alive: i64 = if s == c.first_stream { 1 } else { 0 };
-        for e in c.h.iter() {
-            if std::ptr::eq(e, u) {
-                continue;
-            }
-            let touches = match e.op {
-                Op::CloneRx | Op::DropRx | Op::Unsub => e.stream == s,
-                Op::AddStream => matches!(e.res, Res::New { stream, .. } if stream == s),
-                Op::IntoSingle | Op::IntoMulti | Op::Transform => e.stream == s,
-                _ => false,
-            };
-            if !touches {
-                continue;
-            }
-            if e.t_call < u.t_ret && e.t_ret > u.t_call {
-                ambiguous = true;
-                break;
-            }
-            if e.t_ret < u.t_call {
-                match e.op {
-                    Op::CloneRx => alive += 1,
-                    Op::AddStream => alive += 1,
-                    Op::DropRx | Op::Unsub => alive -= 1,
-                    _ => {}
+        if let Some(evs) = life.get(&s) {
+            for e in evs.iter() {
+                if std::ptr::eq(*e, u) {
+                    continue;
+                }
+                if e.t_call < u.t_ret && e.t_ret > u.t_call {
+                    ambiguous = true;
+                    break;
+                }
+                if e.t_ret < u.t_call {
+                    match e.op {
+                        Op::CloneRx => alive += 1,
+                        Op::AddStream => alive += 1,
+                        Op::DropRx | Op::Unsub => alive -= 1,
+                        _ => {}
+                    }
                 }
             }
         }
